@@ -396,6 +396,8 @@ func (radius *RADIUS) DecodeFromBytes(data []byte, df gopacket.DecodeFeedback) e
 	}
 
 	radius.BaseLayer = BaseLayer{Contents: data}
+	// a reused layer must not keep the attributes of an earlier packet
+	radius.Attributes = nil
 
 	radius.Code = RADIUSCode(data[0])
 	radius.Identifier = RADIUSIdentifier(data[1])
